@@ -43,7 +43,9 @@ func runC06(c *vh.Ctx) {
 		"(i positive, 0, negative, beyond NF, > 1000000, fractional, huge, NaN/Inf; assignment also through getline $i and sub()), " +
 		"NF read / NF= number or string (smaller, larger, 0, fractional, negative, too large; also NF++/NF+=), FS= (space, tab, single " +
 		"char, multi-byte char, invalid byte, empty, regex from a generated subset), OFS=, OUTPUTMODE= (default/csv/tsv/other separator/invalid), " +
-		"full dumps; rendered as an AWK program whose observations are printed length-prefixed; non-trivial = at least one " +
+		"`var=value` operands (NF/FS/OFS/OUTPUTMODE, accepted and rejected: too large, negative, non-compiling) reached by getline var, getline and the main loop; " +
+		"records delivered by getline or by the main loop, from stdin or from ARGV files; getline var and getline var < file between observations; " +
+		"input mode default, csv or tsv (oracle only); full dumps; rendered as an AWK program whose observations are printed length-prefixed; non-trivial = at least one " +
 		"observation after at least one mutation of the record")
 
 	defer cleanupFiles()
